@@ -54,6 +54,10 @@ def gen_world(rng, tier, *, min_species=2, max_species=5, allow_small_refs=True,
             for i, r in enumerate(sres):
                 names_by_res.setdefault(r, start["resnames"][i])
             end["resnames"] = [names_by_res[r] for r in per_res(end)]
+            if list(zip(end["resnames"], end["atom_names"])) == list(zip(start["resnames"], start["atom_names"])):
+                # (two atoms in two residues, and the random atom names coincide: both topologies would describe the molecules
+                # of the system file and nothing could tell which resolution a file belongs to -- found by the seed sweep)
+                end["atom_names"][0] = "Z" + end["atom_names"][0][1:]
         species.append({"name": name, "start": start, "end": end})
     solvent = {"resname": "SOL", "atoms": ["OW", "HW1", "HW2"]}
     max_mol = max_mol or (12 if tier == "quick" else 60)
